@@ -143,12 +143,15 @@ where
         record: Arc<Record<E>>,
         garbages: &mut Vec<(Event, Arc<Record<E>>)>,
         notifiers: &mut Vec<Notifier<Option<RawCacheEntry<E, S, I>>>>,
-    ) {
-        *notifiers = self
-            .inflights
-            .lock()
-            .take(record.hash(), record.key(), None)
-            .unwrap_or_default();
+        inflight: Option<usize>,
+    ) -> bool {
+        match self.inflights.lock().take(record.hash(), record.key(), inflight) {
+            Some(taken) => *notifiers = taken,
+            // The fetch that produced this record no longer owns the in-flight entry of the key: an explicit
+            // insert (or a newer fetch) has superseded it, so its result must not be published.
+            None if inflight.is_some() => return false,
+            None => {}
+        }
 
         if record.properties().phantom().unwrap_or_default() {
             if let Some(old) = self.indexer.remove(record.hash(), record.key()) {
@@ -168,7 +171,7 @@ where
             record.inc_refs(notifiers.len() + 1);
             garbages.push((Event::Remove, record));
             self.metrics.memory_insert.increase(1);
-            return;
+            return true;
         }
 
         let weight = record.weight();
@@ -212,6 +215,8 @@ where
             std::cmp::Ordering::Less => self.metrics.memory_usage.decrease((old_usage - self.usage) as _),
             std::cmp::Ordering::Equal => {}
         }
+
+        true
     }
 
     #[cfg_attr(feature = "tracing", fastrace::trace(name = "foyer::memory::raw::shard::remove"))]
@@ -553,7 +558,7 @@ where
         value: E::Value,
         properties: E::Properties,
     ) -> RawCacheEntry<E, S, I> {
-        self.insert_with_properties_inner(key, value, properties, Source::Outer)
+        self.insert_with_properties_inner(key, value, properties, Source::Outer, None)
     }
 
     fn insert_with_properties_inner(
@@ -562,6 +567,7 @@ where
         value: E::Value,
         mut properties: E::Properties,
         source: Source,
+        inflight: Option<usize>,
     ) -> RawCacheEntry<E, S, I> {
         let hash = self.inner.hash_builder.hash_one(&key);
         let weight = (self.inner.weighter)(&key, &value);
@@ -580,23 +586,27 @@ where
             hash,
             weight,
         }));
-        self.insert_inner(record, source)
+        self.insert_inner(record, source, inflight)
     }
 
     #[doc(hidden)]
     #[cfg_attr(feature = "tracing", fastrace::trace(name = "foyer::memory::raw::insert_piece"))]
     pub fn insert_piece(&self, piece: Piece<E::Key, E::Value, E::Properties>) -> RawCacheEntry<E, S, I> {
-        self.insert_inner(piece.into_record(), Source::Memory)
+        self.insert_inner(piece.into_record(), Source::Memory, None)
     }
 
     #[cfg_attr(feature = "tracing", fastrace::trace(name = "foyer::memory::raw::insert_inner"))]
-    fn insert_inner(&self, record: Arc<Record<E>>, source: Source) -> RawCacheEntry<E, S, I> {
+    fn insert_inner(&self, record: Arc<Record<E>>, source: Source, inflight: Option<usize>) -> RawCacheEntry<E, S, I> {
         let mut garbages = vec![];
         let mut notifiers = vec![];
 
-        self.inner.shards[self.shard(record.hash())]
+        let inserted = self.inner.shards[self.shard(record.hash())]
             .write()
-            .with(|mut shard| shard.emplace(record.clone(), &mut garbages, &mut notifiers));
+            .with(|mut shard| shard.emplace(record.clone(), &mut garbages, &mut notifiers, inflight));
+        if !inserted {
+            // Superseded fetch result: hand back a detached (outdated) entry, nothing was published.
+            record.inc_refs(1);
+        }
 
         // Notify waiters out of the lock critical section.
         for notifier in notifiers {
@@ -1309,7 +1319,7 @@ where
                     match optional_fetch.poll_unpin(cx) {
                         Poll::Pending => return Poll::Pending,
                         Poll::Ready(Ok(Some(target))) => {
-                            handle_try! {*this.state, handle_target(target, this.key, this.cache, Source::Disk) }
+                            handle_try! {*this.state, handle_target(target, this.key, this.cache, Source::Disk, *this.id) }
                         }
                         Poll::Ready(Ok(None)) => {
                             handle_try! { *this.state, try_set_required(required_fetch_builder, this.ctx, *this.id, *this.hash, this.key.as_ref().unwrap(), &this.inflights, Ok(None)) }
@@ -1326,7 +1336,7 @@ where
                     match required_fetch.poll_unpin(cx) {
                         Poll::Pending => return Poll::Pending,
                         Poll::Ready(Ok(target)) => {
-                            handle_try! { *this.state, handle_target(target, this.key, this.cache, Source::Outer) }
+                            handle_try! { *this.state, handle_target(target, this.key, this.cache, Source::Outer, *this.id) }
                         }
                         Poll::Ready(Err(e)) => {
                             handle_try! { *this.state, handle_error(e, *this.id, *this.hash, this.key.as_ref().unwrap(), this.inflights) }
@@ -1407,14 +1417,15 @@ where
         key: &mut Once<E::Key>,
         cache: &RawCache<E, S, I>,
         source: Source,
+        id: usize,
     ) -> Try<E, S, I, C> {
         match target {
             FetchTarget::Entry { value, properties } => {
                 let key = key.take().unwrap();
-                cache.insert_with_properties_inner(key, value, properties, source);
+                cache.insert_with_properties_inner(key, value, properties, source, Some(id));
             }
             FetchTarget::Piece(piece) => {
-                cache.insert_piece(piece);
+                cache.insert_inner(piece.into_record(), Source::Memory, Some(id));
             }
         }
         Try::Ready
